@@ -484,6 +484,8 @@ def run(R):
         extra = sorted(set(table) - {int(k) for k in hs['map']} - {200})
         R.check(not extra, 'C04.R6', 'http:no-extra-rows', site(b), 'rows beyond the spec table: %r' % {k: table[k] for k in extra})
         R.floor('C04.R6', 'http rows', len(table), 9)
+        # .. and the table is what decides: the decoder never declares a response without grpc-status fine on its own
+        check_response_consults_infer(R, tonic, 'C04.R6')
         # Ok(()) (clean outcome) only after the trailers were parsed by from_header_map and their code compared with Code::Ok
         okrets = [bb for bb, i, p, a, ops in mirlib.aggregates(b, 'result::Result', 'Ok') if p['l'] == 0]
         R.floor('C04.R6', 'Ok returns of infer_grpc_status', len(okrets), 1)
